@@ -75,8 +75,10 @@ mutex queues the request (`PC.waiting`); `Unlock()` hands the mutex to the first
 decides WHICH waiter the model advances; the invariant does not depend on it).  Then for any number of
 concurrent requests to that ONE instance `I` — of this client (`acquire`) and of other clients (`other`,
 same mutex, not counted) —, any number of storage operations inside the critical section and every
-interleaving at storage-operation granularity (including releases that do not take the mutex): the
-quota holds after every step and a refused request changes nothing.  A scheme with one mutex per
+interleaving at storage-operation granularity (including releases that do not take the mutex, and
+revocations through the service — `Op.revoke failAt`: five storage calls outside the mutex, the code
+unusable BEFORE its slot is free, ANY one of the calls failing): the quota — the number of codes that are
+counted or can be activated — holds after every step and a refused request changes nothing.  A scheme with one mutex per
 client whose map entry is dropped before `Unlock` is NOT an instance of this protocol (three requests:
 holder, waiter, newcomer on a fresh mutex) — such a change breaks the skeleton pins and is found by the
 N >= 3 racer schedules of the harness. -/
@@ -94,12 +96,14 @@ theorem C17_code (limit pre I : Nat) (progs : List (List Op)) (σ : List Nat) (h
       (run protoCode limit (init pre (progs.map (fun p => (I, p)))) σ).occ = true :=
   C17_main_mutex protoCode limit pre I progs σ rfl rfl rfl rfl hpre
 
-/-- The same with `d` entries in the client's index that are not active (revoked / used codes): each
-count reads them too (`cnt n = n + d` storage reads) and does not count them. -/
+/-- The same with `d` entries in the client's index that are not active (revoked / used codes): every
+count reads them too and does not count them.  (The count of `code` is a scan: one record read per
+index entry, each counted iff active at the moment it is read — a revocation may land between the index
+read and the record read.) -/
 theorem C17_code_dead (d limit pre I : Nat) (progs : List (List Op)) (σ : List Nat) (hpre : capOk false limit pre = true) :
-    holds false limit pre (run { protoCode with cnt := fun n => n + d } limit (init pre (progs.map (fun p => (I, p)))) σ).trace
-      (run { protoCode with cnt := fun n => n + d } limit (init pre (progs.map (fun p => (I, p)))) σ).occ = true :=
-  C17_main_mutex { protoCode with cnt := fun n => n + d } limit pre I progs σ rfl rfl rfl rfl hpre
+    holds false limit pre (run protoCode limit (initDead d pre (progs.map (fun p => (I, p)))) σ).trace
+      (run protoCode limit (initDead d pre (progs.map (fun p => (I, p)))) σ).occ = true :=
+  holds_of_base (invB_run rfl rfl rfl rfl σ _ (invB_initDead protoCode limit d pre I progs hpre)).base
 
 /-- Quota on active mappings: `ActivateConnectionCode` (`mappingQuotaMu`; `GetClientPortMappings` +
 count + check, `CreatePortMapping`). -/
@@ -443,14 +447,45 @@ theorem skel_CodeCreate : Gen.Skel.L17_CodeCreate =
      "listStore.AppendToList", "{ret", "storage.Delete", "storage.Delete", "}"] := by decide
 
 /-- The step counts of the `code` instance are the storage calls of the source: one `Get` per listed
-id in the count (`cnt n = n`), and between the check and the index append one `Get` (uniqueness of
-the code) plus the `Set`s of `Create` that precede `AppendToList` (`mid`). -/
+id in the count (`scan`: `ListByTargetClient` = `GetList` + one `GetByID` = one `Get` per entry); between the check and the first write one `Get` (uniqueness of the code,
+`mid`); the code exists from the first `Set` of `Create` (by-code) on, and the `Set(by-id)` and the
+`AppendToList` follow inside the critical section (`post`). -/
 theorem C17_code_steps :
-    protoCode.mid = Gen.Skel.L17_CodeGetByCode.length +
-      ((Gen.Skel.L17_CodeCreate.takeWhile (· != "listStore.AppendToList")).filter (· == "storage.Set")).length ∧
-    (∀ n, protoCode.cnt n = n * Gen.Skel.L17_CodeGetByID.length) := by
-  refine ⟨by decide, ?_⟩
-  intro n; simp [protoCode, Gen.Skel.L17_CodeGetByID]
+    protoCode.mid = Gen.Skel.L17_CodeGetByCode.length ∧
+    protoCode.post + 1 = ((Gen.Skel.L17_CodeCreate.takeWhile (· != "listStore.AppendToList")).filter (· == "storage.Set")).length + 1 ∧
+    (protoCode.scan = true ∧ Gen.Skel.L17_CodeGetByID.length = 1) := by
+  refine ⟨by decide, by decide, by decide⟩
+
+/-- `RevokeConnectionCode` = claim, read by code, `Update`, release claim (five storage calls) and
+`Update` writes the BY-CODE copy first (the code becomes unusable) and the BY-ID copy second (the quota
+slot becomes free): at no instant, and after no single failed write, is a code usable but not counted.
+The opposite order (seeded regression `code-update-byid-before-bycode`) breaks this pin. -/
+theorem skel_RevokeConnectionCode : Gen.Skel.L17_RevokeConnectionCode =
+    ["s.claimCode", "defer release", "connCodeRepo.GetByCode", "connCode.Revoke", "connCodeRepo.Update"] := by decide
+theorem skel_TryClaim : Gen.Skel.L17_TryClaim = ["casStore.SetNX"] := by decide
+theorem skel_ReleaseClaim : Gen.Skel.L17_ReleaseClaim = ["storage.Delete"] := by decide
+theorem flow_CodeUpdate : Gen.Flow.L17_CodeUpdate = [
+  "if err := code.Validate(); err != nil",
+  "return coreerrors.Wrap(err, coreerrors.CodeValidationError, \"invalid connection code\")",
+  "end",
+  "data, err := json.Marshal(code)",
+  "if err != nil",
+  "return coreerrors.Wrap(err, coreerrors.CodeInternal, \"failed to marshal connection code\")",
+  "end",
+  "ttl := code.TimeRemaining()",
+  "if ttl <= 0",
+  "return r.Delete(code.ID)",
+  "end",
+  "keyByCode := constants.KeyPrefixRuntimeConnectionCodeByCode + code.Code",
+  "if err := r.storage.Set(keyByCode, string(data), ttl); err != nil",
+  "return coreerrors.Wrap(err, coreerrors.CodeStorageError, \"failed to update connection code by code\")",
+  "end",
+  "keyByID := constants.KeyPrefixRuntimeConnectionCodeByID + code.ID",
+  "if err := r.storage.Set(keyByID, string(data), ttl); err != nil",
+  "return coreerrors.Wrap(err, coreerrors.CodeStorageError, \"failed to update connection code by ID\")",
+  "end",
+  "return nil"
+] := by decide +kernel
 
 /-! ## The slot across the life of its tunnel (close events interleaved with `handleConnection`) -/
 
@@ -513,11 +548,27 @@ example :
       = [.adm 0 2 (some 0) 2, .adm 1 3 (some 1) 2, .rel 0 2 1] := by decide
 
 /-- The code quota: the second request queues up in `Lock()`, is handed the mutex by the `Unlock()`
-of the first, then counts 2 of 2 and is refused. -/
+of the first, then counts 2 of 2 and is refused.  The first request's code exists from its
+`Set(by-code)` on (`adm`), two more storage calls follow inside the critical section. -/
 example :
     (run protoCode 2 (init 1 [(0, [.acquire]), (0, [.acquire])]) [0, 1, 0, 0, 0, 0, 0, 0, 1, 1, 1]).trace
-      = [.stp 0 1, .blk 1 1, .stp 0 1, .stp 0 1, .stp 0 1, .stp 0 1, .stp 0 1, .adm 0 1 none 2,
+      = [.stp 0 1, .blk 1 1, .stp 0 1, .stp 0 1, .stp 0 1, .adm 0 1 none 2, .stp 0 2, .stp 0 2,
          .stp 1 2, .stp 1 2, .ref 1 false 2] := by decide
+
+/-- Revocation with a storage fault on its second write (`Set(by-id)`): the code can no longer be
+activated but keeps its quota slot — a request at the quota is still refused.  Without the fault the
+slot is free only after the `Set(by-id)` (`rel`), i.e. after the code became unusable. -/
+example :
+    (run protoCode 1 (init 0 [(0, [.acquire, .revoke (some 3)]), (0, [.acquire])])
+        [0, 0, 0, 0, 0, 0,  0, 0, 0, 0, 0, 0,  1, 1, 1, 1]).trace
+      = [.stp 0 0, .stp 0 0, .stp 0 0, .adm 0 0 none 1, .stp 0 1, .stp 0 1,
+         .stp 0 1, .stp 0 1, .stp 0 1, .stp 0 1, .stp 0 1, .stp 0 1,
+         .stp 1 1, .stp 1 1, .ref 1 false 1] := by decide
+example :
+    (run protoCode 1 (init 0 [(0, [.acquire, .revoke none]), (0, [.acquire])])
+        [0, 0, 0, 0, 0, 0,  0, 0, 0, 0, 1, 1, 1, 0, 0]).trace
+      = [.stp 0 0, .stp 0 0, .stp 0 0, .adm 0 0 none 1, .stp 0 1, .stp 0 1,
+         .stp 0 1, .stp 0 1, .stp 0 1, .stp 0 1, .stp 1 1, .stp 1 1, .ref 1 false 1, .rel 0 0 0, .stp 0 0] := by decide
 
 /-- Three activations of one client at occupancy `limit-2` plus one of another client, the schedule
 of the seeded regression (A holds, B queued, A leaves, B counts, C arrives, B creates, C counts): the
